@@ -220,7 +220,7 @@ Definition apply_filters (sel_all : bool) (tfs : list tfilter) (db : list series
 Fixpoint insert_by_key (f : tfilter) (l : list tfilter) : list tfilter :=
   match l with
   | [] => [f]
-  | g :: r => if str_ltb (f_key f) (f_key g) then f :: l else g :: insert_by_key f r
+  | g :: r => if str_ltb (f_key g) (f_key f) then g :: insert_by_key f r else f :: l   (* before equal keys: stable with fold_right *)
   end.
 Definition sort_by_key (l : list tfilter) : list tfilter := fold_right insert_by_key [] l.
 
@@ -413,37 +413,47 @@ Fixpoint dedup_str (l : list str) : list str :=
 Fixpoint dedup_z (l : list Z) : list Z :=
   match l with [] => [] | x :: r => x :: filter (fun y => negb (Z.eqb x y)) (dedup_z r) end.
 
-(* DownsampleResults: DsResults maps a tracker id string to the running entries of all series carrying it *)
-Definition grp_entries (fn : aggfn) (db : list series) (tr : tracker) (grp : str) (t : Z) : list (Z * Z) :=
-  flat_map (fun e => if str_eqb (snd e) grp then series_entry fn (nth_series db (fst e)) t else []) tr.
+(* DownsampleResults / AggregateResults: the running entries that reach output group [gid] at time t.
+   (The Go code walks maps keyed by tracker id and then by output id; map order is unspecified and the
+   reductions do not depend on it, the model walks the tracker in its own order.) *)
+Definition gid_entries (dsfn : aggfn) (fields : list str) (without : bool)
+           (db : list series) (tr : tracker) (gid : str) (t : Z) : list (Z * Z) :=
+  flat_map (fun e => if str_eqb (agg_series_id (snd e) fields without) gid
+                     then series_entry dsfn (nth_series db (fst e)) t else []) tr.
 
-(* value of output group [gid] at time [t] (None: no sample) *)
-Definition result_at (q : query) (db : list series) (gid : str) (t : Z) : option Q :=
-  let tr := tracked q db in
-  let '(fn, fields, without) := first_agg q in
-  let grps := dedup_str (map snd tr) in
+(* computeAggCount without group by: the tracker ids (DsResults keys) that have an entry at t *)
+Definition ids_with_entry (dsfn : aggfn) (db : list series) (tr : tracker) (t : Z) : list str :=
+  filter (fun g => existsb (fun e => str_eqb (snd e) g &&
+                                     negb (Nat.eqb (length (series_entry dsfn (nth_series db (fst e)) t)) 0)) tr)
+         (dedup_str (map snd tr)).
+
+(* the aggregation stage for an arbitrary set of selected series (tracker) *)
+Definition agg_at (name : str) (fn : aggfn) (fields : list str) (without : bool)
+           (db : list series) (tr : tracker) (gid : str) (t : Z) : option Q :=
   match fn, fields with
   | ACount, [] =>
-    (* computeAggCount without group by: the number of tracker ids that have an entry at t *)
-    if str_eqb gid (q_name q ++ [c_lbrace]) then
-      match filter (fun g => negb (Nat.eqb (length (grp_entries (ds_fn q) db tr g t)) 0)) grps with
+    if str_eqb gid (name ++ [c_lbrace]) then
+      match ids_with_entry fn db tr t with
       | [] => None
       | l => Some (inject_Z (Z.of_nat (length l)))
       end
     else None
   | ACount, _ =>
-    match flat_map (fun g => if str_eqb (agg_series_id g fields without) gid
-                             then grp_entries (ds_fn q) db tr g t else []) grps with
+    match gid_entries fn fields without db tr gid t with
     | [] => None
     | es => Some (inject_Z (Z.of_nat (length es)))
     end
   | _, _ =>
-    match flat_map (fun g => if str_eqb (agg_series_id g fields without) gid
-                             then grp_entries (ds_fn q) db tr g t else []) grps with
+    match gid_entries fn fields without db tr gid t with
     | [] => None
     | es => Some (reduce_running fn es)
     end
   end.
+
+(* value of output group [gid] at time [t] (None: no sample) *)
+Definition result_at (q : query) (db : list series) (gid : str) (t : Z) : option Q :=
+  let '(fn, fields, without) := first_agg q in
+  agg_at (q_name q) fn fields without db (tracked q db) gid t.
 
 Definition out_ids (q : query) (db : list series) : list str :=
   let tr := tracked q db in
@@ -475,4 +485,44 @@ Definition spec_agg (fn : aggfn) (vals : list Z) : Q :=
   | ACount => inject_Z (Z.of_nat (length vals))
   end.
 
+(* ---------- arithmetic between two instant vectors (segexecution.go, HelperQueryArithmeticAndLogical) ----------
+   Both operands are plain selectors (GetAllLabels is already set for them).  A left series is
+   paired with the right series whose id STRING equals rightName ++ (leftId minus leftName);
+   a right-hand sample missing at a timestamp is read from a Go map and is therefore 0. *)
+Inductive binop := BAdd | BSub | BMul.
+Definition bin_apply (op : binop) (x y : Q) : Q :=
+  match op with BAdd => Qred (x + y) | BSub => Qred (x - y) | BMul => Qred (x * y) end.
+
+Definition run_arith (op : binop) (q1 q2 : query) (db : list series) : list (str * list (Z * Q)) :=
+  let r2 := run_query q2 db in
+  flat_map (fun e =>
+    let rid := q_name q2 ++ skipn (length (q_name q1)) (fst e) in
+    match find (fun e2 => str_eqb (fst e2) rid) r2 with
+    | None => []
+    | Some e2 =>
+      [(fst e, map (fun tv =>
+          let y := match find (fun tv2 => Z.eqb (fst tv2) (fst tv)) (snd e2) with
+                   | Some tv2 => snd tv2
+                   | None => 0%Q
+                   end in
+          (fst tv, bin_apply op (snd tv) y)) (snd e))]
+    end) (run_query q1 db).
+
 End WithRegex.
+
+(* ---------- guards of the selection theorem (exact, executable) ---------- *)
+Fixpoint nodup_strb (l : list str) : bool :=
+  match l with [] => true | x :: r => negb (mem_str x r) && nodup_strb r end.
+
+(* a series of the queried metric carries every matched label, has at least one label, and no empty label value *)
+Definition series_ok (name : str) (ms : list matcher) (s : series) : bool :=
+  negb (str_eqb (s_name s) name) ||
+  (forallb (fun m => has_key (m_key m) s) ms &&
+   negb (Nat.eqb (length (s_labels s)) 0) &&
+   forallb (fun kv => negb (Nat.eqb (length (snd kv)) 0)) (s_labels s)).
+
+(* no matcher value is the literal "*" (read as a wildcard), one matcher per label, labels present *)
+Definition select_guard (name : str) (ms : list matcher) (db : list series) : bool :=
+  forallb (fun m => negb (str_eqb (m_val m) star_val)) ms &&
+  nodup_strb (map m_key ms) &&
+  forallb (series_ok name ms) db.
